@@ -156,14 +156,18 @@ def unit_fully_diagonalize_normalisation(nb, given, timeout_ms=20000):
         eng.globals.update({"np": Namespace("np", {"ndarray": TypeObj("ndarray")}),
                             "sympy": Namespace("sympy", {"MatrixBase": TypeObj("MatrixBase"), "Expr": TypeObj("Expr"),
                                                          "Matrix": Builtin("Matrix", lambda e, x: T("sympy.Matrix", x))})})
-        env = Env(None, {"H": H(), "fully_diagonalize": fd, "hermitian": True})
+        # a custom solver together with a non-empty `fully_diagonalize` was rejected by the guard at the top of block_diagonalize
+        custom = bool(eng.branch(eng.fresh("custom_solve_sylvester", "bool"))) if given == "empty" else False
+        env = Env(None, {"H": H(), "fully_diagonalize": fd, "hermitian": True, "custom_solve_sylvester": custom})
         T.m_getattr = patched
         try:
             try:
                 for st in frag:
                     eng.exec_stmt(st, env)
             except PyRaise as pr:
-                eng.oblige("raises-only-ValueError-for-a-bare-array-with-several-blocks", z3.BoolVal(pr.exc.cls == "ValueError" and given == "ndarray" and nb > 1), detail=pr.exc.cls)
+                ok1 = pr.exc.cls == "ValueError" and given == "ndarray" and nb > 1
+                ok2 = pr.exc.cls == "NotImplementedError" and custom and given == "empty" and nb == 1
+                eng.oblige("raises-only-for-a-bare-array-with-several-blocks-or-a-custom-solver-with-a-single-block", z3.BoolVal(ok1 or ok2), detail=pr.exc.cls)
                 return
         finally:
             T.m_getattr = T_getattr
@@ -186,6 +190,8 @@ def unit_fully_diagonalize_normalisation(nb, given, timeout_ms=20000):
         else:
             o = eng.as_seq(out) if not isinstance(out, dict) else None
             want = [0] if nb == 1 else []
+            eng.oblige("custom-solver-with-a-single-block-is-rejected", z3.BoolVal(not (custom and nb == 1)),
+                       detail="a single block is fully diagonalized by default, which custom Sylvester solvers do not support")
             eng.oblige("empty-means-block-0-for-a-single-block-and-nothing-otherwise", z3.BoolVal(o is not None and o.items == want), detail=repr(out)[:200])
     return run_unit(f"block_diagonalization:block_diagonalize/fully_diagonalize-normalisation[{nb} blocks,{given}]", harness,
                     functions=[(MODULE, "block_diagonalize")], timeout_ms=timeout_ms)
